@@ -23,6 +23,11 @@ array used by many calls (R7); see `build_input` and the `o_*` oracles below.
 Third round: argument forms (R8: positional / keyword / defaults, `call_form`),
 heterogeneous element types inside one gain collection (R10), result and
 arguments used and overwritten after the call (R13), 257 .. 65537 channels (R14).
+Fourth round: distinct values that are merely close (R15: tiny magnitudes, relative 1e-6..1e-8, adjacent
+doubles, beyond the 12th decimal, total power a hair off a threshold - histories of such calls compared
+with the exact rational solution at 1e-12 / bit for bit, `o_close`) and argument identity / buffer reuse
+(R16: one gain buffer refilled in place, one object in several roles, `play_reuse`; the in-history
+results also against the model's history function through the driver line `hist`).
 """
 import json
 import math
@@ -39,7 +44,7 @@ RTOL = 1e-9
 
 CLAIM = {
     'technique': 'Lean 4 proof about an executable model + exact-rational differential correspondence',
-    'text': 'Proved in Lean (26 theorems, any vector length, arbitrary linear ordered field; optimality over R): '
+    'text': 'Proved in Lean (35 theorems, any vector length, arbitrary linear ordered field; optimality over R): '
             'for every non-empty vector of positive gains, P > 0, N > 0, Es > 0 and EVERY argsort result '
             'satisfying the sort contract (any tie order), the model of doWF returns a value; the allocation has '
             'one entry per channel, is non-negative, sums to P, equals max(0, mu - N/(Es g_i)) for the returned '
@@ -87,7 +92,33 @@ CLAIM = {
             'rational model needs minutes there). Not applicable: R9 (doWF takes no index or count argument), '
             'R11 (no object, no query methods: the only entry point is the pure function, whose '
             'non-interference is R3/R7/R13), R12 (no dict/set/named container; the order of the channels is '
-            'covered by the permutation-equivariance clause, theorem wf_perm_equivariant). No new finding.',
+            'covered by the permutation-equivariance clause, theorem wf_perm_equivariant). No new finding. '
+            'Fourth round: R15 (distinct values that are merely close) - THEOREMS wf_exact_in_power (P < P\' '
+            'gives a strictly higher level and another allocation), wf_exact_in_noise, wf_exact_in_energy, '
+            'wf_exact_in_used_gain (a gain of a channel in use), wf_close_values_not_identified (doWF g P N Es = '
+            'doWF g P\' N\' Es\' only if P = P\' and N/Es = N\'/Es\'): over any ordered field the result is a '
+            'function of the exact values, nothing is identified by a tolerance; the code has no lookup / cache '
+            '/ unchanged test - the places where a value decides are the loop test and the sort. Oracle doWF.close: '
+            'histories of 2-4 calls whose arguments differ by factors below 1e-8 absolute (noise 4e-12 / 4e-13, '
+            'gains 3e-10 / 1e-12 / 5e-15 in one vector), by a relative 1e-6..1e-8 (2.4e9 vs 2.4e9+2e4, also '
+            'inside one gain vector with the power below / above their separation), by one ulp, beyond the '
+            '12th decimal, or P = T_k(1 +- 1e-6..3e-9) around a threshold; every call against the exact '
+            'rational water-filling solution of its own values at 1e-12 of max(P, best level, mu) (the code\'s '
+            'own error is about 1 ulp of that), bit for bit where binary64 evaluation is exact in any order '
+            '(gains and Es powers of two, all values on one 53-bit grid, no loop test within 1e-9 of a tie); '
+            'every call also through the correspondence (kept count compared when the model\'s margin allows). '
+            'R16 (argument identity and buffer reuse) - THEOREMS about the model of a caller that refills one '
+            'buffer (Model/C12.lean runOps / callArgs / bufAfter): wf_history_results (k-th result = doWF of the '
+            'contents at call time), wf_history_append (later refills and calls leave earlier results alone), '
+            'wf_equal_contents_same_result (equal contents, one value in several roles), '
+            'wf_driver_history_instance; the driver line hist runs runOpsRat. Oracle doWF.reuse: ONE gain '
+            'buffer (float64, strided view, int64, python list; one array object per length) refilled in place '
+            'before each of 2-4 calls (new contents, a permutation with the same sum and first element, one '
+            'element, earlier contents again, another length), scalars as floats / preallocated refilled 0-d '
+            'arrays / ONE 0-d array as P and N and Es / P a 0-d view into the gain buffer, arguments overwritten '
+            'right after the call, no other call in between: each result = exact solution of the contents '
+            '(1e-9) = bit for bit the call on fresh copies, arguments unchanged, no aliasing, earlier results '
+            'unchanged; in-history results compared with the model history. No new finding.',
 }
 
 
@@ -739,7 +770,8 @@ def o_derived(case):
 ORACLES = {'doWF': o_alloc, 'doWF.optimal': o_optimal, 'doWF.permute': o_perm,
            'doWF.dtype': o_dtype, 'doWF.layout': o_layout, 'doWF.immutable': o_immutable,
            'doWF.rejected': o_rejected, 'doWF.scale': o_scale, 'doWF.history': o_history,
-           'doWF.argform': o_argform, 'doWF.hetero': o_hetero, 'doWF.derived': o_derived}
+           'doWF.argform': o_argform, 'doWF.hetero': o_hetero, 'doWF.derived': o_derived,
+           'doWF.close': lambda case: o_close(case), 'doWF.reuse': lambda case: o_reuse(case)}
 
 
 def run_oracle(ctx, call, case, nontrivial=True):
@@ -910,9 +942,12 @@ def correspondence(ctx, cases):
             compare_one(ctx, case, parse_reply(rep))
 
 
-def compare_one(ctx, case, m):
+def compare_one(ctx, case, m, impl=None, tag=None):
+    """`impl`: the implementation's result obtained by the caller (R16: the call made inside a history on a
+    reused buffer), `(p, mu)` or `'error:<type>'`; by default a fresh call on the case.  `tag` keeps the
+    counters of such in-history comparisons apart from those of the same logical case called afresh."""
     cc = clean(case)
-    key = json.dumps(cc, sort_keys=True)
+    key = json.dumps(cc, sort_keys=True) if tag is None else json.dumps([tag, cc], sort_keys=True)
     n = len(cc['g'])
     # contract of the external kernel np.argsort
     g = np.array(cc['g'], dtype=float)
@@ -920,11 +955,16 @@ def compare_one(ctx, case, m):
     ok = sorted(ix.tolist()) == list(range(n)) and bool(np.all(np.diff(g[ix]) >= 0))
     ctx.corr('np.argsort.contract', cc, 'permutation,nondecreasing' if ok else 'violated:%r' % ix.tolist(),
              'permutation,nondecreasing', nontrivial=False, key=('sortc', key))
-    try:
-        p, mu = run_impl(cc)
-        impl_err = None
-    except Exception as e:
-        impl_err = 'error:' + type(e).__name__
+    impl_err = None
+    if isinstance(impl, str):
+        impl_err = impl
+    elif impl is not None:
+        p, mu = impl
+    else:
+        try:
+            p, mu = run_impl(cc)
+        except Exception as e:
+            impl_err = 'error:' + type(e).__name__
     if 'error' in m or impl_err:
         ctx.corr('doWF', cc, impl_err or 'value', m.get('error', 'value'), key=('wf', key))
         ctx.branch('error-case')
@@ -1263,6 +1303,586 @@ def robustness2_oracles(ctx, r8, r10, r14_big, n_other):
         ctx.branch('R14:n=%d(oracles only)' % n)
 
 
+# ------------------------------------------------------------------ R15: distinct values that are merely close
+TIGHT = 1e-12      # relative to max(P, best level, mu): ~4500 ulp; the code's own rounding error is ~(2n+10) ulp
+
+
+def exact_wf(g, P, N, Es):
+    """water-filling solution in exact rational arithmetic, from the DEFINITION (not the code's loop): the
+    left side of  sum_i max(0, mu - a_i) = P,  a_i = N/(Es g_i),  is continuous, piecewise linear and
+    strictly increasing above min a; with the k lowest levels under water mu = (P + a_(1) + .. + a_(k))/k,
+    and k is the first count for which that level does not reach a_(k+1).
+    Returns (p, mu, k, margin): margin = smallest relative distance of P from a power T_k (k >= 2) at which
+    another channel starts to be used - the discrete decisions of ANY algorithm are robust against
+    rounding when it is not tiny (T_1 = 0 is not a decision: the best channel is always in use)."""
+    a = [Fraction(N) / (Fraction(Es) * Fraction(x)) for x in g]
+    srt = sorted(a)
+    P = Fraction(P)
+    n = len(a)
+    acc = Fraction(0)
+    mu, k_used = None, n
+    for k in range(1, n + 1):
+        acc += srt[k - 1]
+        cand = (P + acc) / k
+        if k == n or cand <= srt[k]:
+            mu, k_used = cand, k
+            break
+    p = [max(Fraction(0), mu - x) for x in a]
+    acc, margin = srt[0], Fraction(1)
+    for k in range(2, n + 1):
+        acc += srt[k - 1]
+        T = k * srt[k - 1] - acc
+        margin = min(margin, abs(T - P) / max(abs(T), P, srt[k - 1]))
+    return p, mu, k_used, margin
+
+
+def is_pow2(x):
+    return x > 0 and math.frexp(x)[0] == 0.5
+
+
+def exactly_computable(call, p, mu, k, margin):
+    """binary64 evaluation of the water-filling solution is EXACT, whatever the order of the operations:
+    gains and Es are powers of two (every level N/(Es g) is N with another exponent), no loop test is
+    within 1e-9 of a tie, and P, the levels in use, the allocation and the level all lie on one binary
+    grid u on which the largest natural intermediate, P + sum of the levels in use (= k mu), is below
+    2^53 u.  Then every sum / difference / quotient a reasonable evaluation forms is representable, and
+    the result must equal the exact one bit for bit - this is what separates adjacent doubles."""
+    if not all(is_pow2(x) for x in call['g']) or not is_pow2(call['Es']) or margin < Fraction(1, 10 ** 9):
+        return False
+    a = [Fraction(call['N']) / (Fraction(call['Es']) * Fraction(x)) for x in call['g']]
+    used = [x for x, y in zip(a, p) if y > 0]
+    vals = [Fraction(call['P']), mu] + used + [y for y in p if y > 0]
+    den = 1
+    for v in vals:
+        if v.denominator & (v.denominator - 1):
+            return False
+        den = max(den, v.denominator)
+    top = Fraction(call['P']) + sum(used)
+    return top * den < 2 ** 53 and all(abs(v) * den >= 1 for v in vals if v != 0)
+
+
+def call_of(case, i):
+    c = case['calls'][i]
+    return {'g': [float(x) for x in c['g']], 'P': float(c['P']), 'N': float(c['N']), 'Es': float(c['Es'])}
+
+
+def close_kind(case):
+    cl = case.get('close') or {}
+    return 'R15:%s:%s' % (cl.get('kind', '?'), cl.get('param', '?'))
+
+
+def o_close(case, info=None):
+    """R15: a short history of calls whose arguments are DISTINCT but close (tiny magnitudes, relative
+    1e-6..1e-8, adjacent doubles, beyond the 12th decimal, total power a hair below / above a threshold).
+    Every call must return the water-filling solution of ITS OWN values: compared with the exact rational
+    solution at 1e-12 relative (bit for bit where binary64 evaluation is exact).  The gain array object is
+    reused while the gains stay the same, as a caller sweeping one scalar would do."""
+    kind = close_kind(case)
+    garr, prev = None, None
+    for i in range(len(case['calls'])):
+        c = call_of(case, i)
+        if prev != c['g']:
+            garr, prev = np.array(c['g'], dtype=float), c['g']
+        p, mu = call_raw((garr, c['P'], c['N'], c['Es']))
+        p = np.asarray(p, dtype=float)
+        mu = float(np.asarray(mu, dtype=float).reshape(-1)[0])
+        ep, emu, k, margin = exact_wf(c['g'], c['P'], c['N'], c['Es'])
+        where = 'call %d of %d (g=%r P=%r N=%r Es=%r)' % (i + 1, len(case['calls']), c['g'], c['P'], c['N'], c['Es'])
+        if p.shape != (len(c['g']),) or not np.all(np.isfinite(p)) or not math.isfinite(mu):
+            return kind + ':shape-or-nonfinite', '%s: p=%r mu=%r' % (where, p.tolist(), mu)
+        if exactly_computable(c, ep, emu, k, margin):
+            if info is not None:
+                info.append('exact')
+            if [Fraction(float(x)) for x in p] != ep or Fraction(mu) != emu:
+                return kind + ':exact', '%s: p=%r mu=%r, exactly p=%r mu=%r' % (
+                    where, p.tolist(), mu, [float(x) for x in ep], float(emu))
+            continue
+        if info is not None:
+            info.append('tight')
+        sc = max(Fraction(c['P']), min(Fraction(c['N']) / (Fraction(c['Es']) * Fraction(x)) for x in c['g']), emu)
+        tol = Fraction(TIGHT) * sc * max(1, len(c['g']) // 8)
+        j = max(range(len(ep)), key=lambda t: abs(Fraction(float(p[t])) - ep[t]))
+        if abs(Fraction(float(p[j])) - ep[j]) > tol:
+            return kind, '%s: channel %d gets %r, the solution for these values is %r (|diff| = %.3g of the scale %.3g)' % (
+                where, j, float(p[j]), float(ep[j]), float(abs(Fraction(float(p[j])) - ep[j]) / sc), float(sc))
+        if abs(Fraction(mu) - emu) > tol:
+            return kind, '%s: level %r, the solution for these values has %r' % (where, mu, float(emu))
+    return None
+
+
+def thresholds(g, N, Es):
+    """exact powers T_1 = 0 <= T_2 <= .. at which the 1st, 2nd, .. best channel starts to be used"""
+    a = sorted(Fraction(N) / (Fraction(Es) * Fraction(x)) for x in g)
+    out, acc = [], Fraction(0)
+    for k in range(1, len(a) + 1):
+        acc += a[k - 1]
+        out.append(k * a[k - 1] - acc)
+    return out
+
+
+def between(rng, g, N, Es, k):
+    """a power with exactly k channels in use, well inside the interval"""
+    T = thresholds(g, N, Es)
+    lo = T[k - 1]
+    hi = T[k] if k < len(T) else None
+    if hi is None or hi <= lo:
+        return float(lo) * (1.5 + rng.uniform(0, 2)) + (float(min(N / (Es * x) for x in g)) if lo == 0 else 0.0)
+    return float(lo + (hi - lo) * Fraction(rng.uniform(0.1, 0.9)))
+
+
+def r15_history(kind, param, calls, note=None):
+    h = {'calls': [{'g': [float(x) for x in c[0]], 'P': float(c[1]), 'N': float(c[2]), 'Es': float(c[3])}
+                   for c in calls], 'close': {'kind': kind, 'param': param}}
+    if note:
+        h['note'] = note
+    for c in h['calls']:
+        if not (min(c['g']) > 0 and c['P'] > 0 and c['N'] > 0 and c['Es'] > 0) or \
+                not all(math.isfinite(x) for x in c['g'] + [c['P'], c['N'], c['Es']]):
+            raise core.Infra('R15 generator left the domain: %r' % (c,))
+    return h
+
+
+R15_FIXED = [
+    # noise powers that np.isclose (atol 1e-8) identifies with each other and with 0
+    r15_history('tiny', 'N', [([1.0, 0.5, 0.25], 3e-12, n, 1.0) for n in (4e-12, 4e-13, 4.4e-12, 4e-12)],
+                'noise 4e-12 / 4e-13 / 4.4e-12 with a total power of 3e-12'),
+    r15_history('tiny', 'P', [([1.0, 0.5, 0.25], P, 2e-12, 1.0) for P in (1e-12, 1e-13, 3e-12, 9e-12)]),
+    r15_history('tiny', 'g', [(g, 2.0, 1e-12, 1.0) for g in
+                              ([1e-12, 5e-13, 2.5e-13], [3e-12, 5e-13, 2.5e-13], [1e-12, 5e-14, 2.5e-13])]),
+    r15_history('tiny', 'g-within', [([3e-10, 1e-12, 5e-15], P, 1e-12, 1.0) for P in (0.5, 150.0, 500.0)],
+                'gains 3e-10, 1e-12, 5e-15 are all "equal to 0"; 1, 2, 3 of them in use'),
+    r15_history('tiny', 'Es', [([2.0, 1.0], 1.5, 1e-9, es) for es in (1e-9, 1e-10, 3e-9)]),
+    # large values differing by a relative 1e-6 .. 1e-8
+    r15_history('rel', 'g-within', [([2.4e9, 2.4e9 + 2e4, 2.4e9 - 3e4], P, 1.0, 1.0)
+                                    for P in (1e-15, 4e-15, 1e-14, 1.0)],
+                'levels differ by a relative 1e-5: 1, 2, 3, 3 channels in use'),
+    r15_history('rel', 'g', [([2.4e9, 1.2e9], 1e-9, 1.0, 1.0), ([2.4e9 + 2e4, 1.2e9], 1e-9, 1.0, 1.0),
+                             ([2.4e9, 1.2e9 + 1e3], 1e-9, 1.0, 1.0)]),
+    r15_history('rel', 'P', [([3.0, 2.0, 1.0], P, 1.0, 1.0) for P in (2.4e9, 2.4e9 + 2e4, 2.4e9 + 20.0)]),
+    r15_history('rel', 'P', [([3.0, 2.0, 1.0], P, 1.0, 1.0) for P in (1.0, 1.000001, 1.00000001, 0.9999999)]),
+    r15_history('rel', 'N', [([3.0, 2.0, 1.0], 1.0, n, 1.0) for n in (1.0, 1.000001, 1.0000001, 1.0)]),
+    r15_history('rel', 'Es', [([3.0, 2.0, 1.0], 1.0, 1.0, es) for es in (2.0, 2.000002, 1.9999998)]),
+    # adjacent doubles (only the best channel in use, or a single one: binary64 is exact there)
+    r15_history('ulp', 'P', [([1.0], P, 0.0625, 1.0) for P in (0.3, 0.30000000000000004, 0.29999999999999993, 0.3)]),
+    r15_history('ulp', 'P', [([4.0, 0.25, 0.125], P, 0.25, 1.0) for P in (0.3, 0.30000000000000004, 0.3)]),
+    r15_history('ulp', 'N', [([1.0], 0.0625, n, 1.0) for n in (0.3, 0.30000000000000004, 0.3)]),
+    # values differing beyond the 12th decimal only (dyadic: exact)
+    r15_history('dec13', 'P', [([1.0, 0.5], 3.0 + j * 2.0 ** -44, 1.0, 1.0) for j in (0, 1, 3, 0)]),
+    r15_history('dec13', 'N', [([2.0, 1.0, 0.5, 0.25], 16.0, 1.0 + j * 2.0 ** -42, 2.0) for j in (0, 1, 2)]),
+    r15_history('dec13', 'P', [([1.0, 0.5, 0.25], 0.75 + j * 2.0 ** -43, 0.5, 1.0) for j in (0, 1, 2, 1)]),
+]
+
+
+def gen_r15(rng, count):
+    """random histories of 2-4 calls with close-but-distinct arguments, every kind x parameter"""
+    out = []
+    plan = [('tiny', 'N'), ('tiny', 'P'), ('tiny', 'g'), ('tiny', 'g-within'), ('rel', 'g-within'), ('rel', 'g'),
+            ('rel', 'P'), ('rel', 'N'), ('rel', 'Es'), ('threshold', 'P'), ('threshold', 'P'), ('ulp', 'P'),
+            ('ulp', 'N'), ('dec13', 'P'), ('dec13', 'N')]
+    for i in range(count):
+        kind, param = plan[i % len(plan)]
+        n = rng.randint(2, 6)
+        m = rng.randint(2, 4)
+        if kind in ('tiny', 'rel', 'threshold'):
+            c = rng.uniform(-1, 1)
+            g = [logu(rng, c - 1, c + 1) for _ in range(n)]
+            N, Es = rng.choice([1.0, 0.5, logu(rng, -1, 1)]), rng.choice([1.0, 2.0, logu(rng, -1, 1)])
+            k = rng.randint(1, n)
+        if kind == 'tiny':
+            u = 10.0 ** -rng.randint(9, 15)
+            f = [1.0] + [rng.choice([0.1, 10.0, 1.1, 0.3, 3.0, 1.000001]) for _ in range(m - 1)]
+            if rng.chance(0.5):
+                f[-1] = 1.0                                   # come back to the first value
+            if param == 'N':
+                P = between(rng, g, N, Es, k)
+                calls = [(g, u * P, u * N * x, Es) for x in f]
+            elif param == 'P':
+                P = between(rng, g, N, Es, k)
+                calls = [(g, u * P * x, u * N, Es) for x in f]
+            elif param == 'g':
+                P = between(rng, g, N, Es, k)
+                j = g.index(max(g)) if rng.chance(0.5) else rng.below(n)
+                calls = [([u * y * (x if t == j else 1.0) for t, y in enumerate(g)], P, u * N, Es) for x in f]
+            else:
+                g = [10.0 ** -rng.uniform(9, 15) for _ in range(n)]
+                calls = [(g, between(rng, g, u, Es, rng.randint(1, n)), u, Es) for _ in range(m)]
+        elif kind == 'rel':
+            d = [0.0] + [rng.choice([1e-6, -1e-6, 3e-7, 1e-7, -2e-8, 1e-8]) for _ in range(m - 1)]
+            if rng.chance(0.4):
+                d[-1] = 0.0
+            big = rng.choice([1.0, 2.4e9, 1e6, 1e-6])
+            if param == 'g-within':
+                g = [big * (1 + rng.randint(-40, 40) * rng.choice([1e-7, 1e-8])) for _ in range(n)]
+                if len(set(g)) < n:
+                    g = [big * (1 + t * 1e-7) for t in range(n)]
+                calls = [(g, between(rng, g, N, Es, rng.randint(1, n)), N, Es) for _ in range(m)]
+            elif param == 'g':
+                g = [big * y for y in g]
+                P = between(rng, g, N, Es, k)
+                a = [N / (Es * y) for y in g]
+                j = int(np.argmin(a)) if rng.chance(0.5) else rng.below(n)
+                calls = [([y * (1 + x) if t == j else y for t, y in enumerate(g)], P, N, Es) for x in d]
+            else:
+                P = between(rng, g, N, Es, k)
+                calls = [(g, P * (1 + x) if param == 'P' else P, N * (1 + x) if param == 'N' else N,
+                          Es * (1 + x) if param == 'Es' else Es) for x in d]
+        elif kind == 'threshold':
+            k = rng.randint(2, n)
+            T = float(thresholds(g, N, Es)[k - 1])
+            if not T > 0:
+                continue
+            dl = rng.choice([1e-6, 1e-7, 1e-8, 3e-9])
+            calls = [(g, T * (1 + x * dl), N, Es) for x in rng.choice([(-1, 1, 3), (1, -1), (-2, -1, 1, 2), (3, 1, -1)])]
+        elif kind == 'ulp':
+            # only the best channel in use (or a single channel): p_best = P and mu = P + a_best exactly
+            e = rng.randint(-3, 3)
+            base = rng.choice([0.3, 0.7, 0.1, 0.6, 1.0 / 3.0]) * 2.0 ** e
+            lo, hi = 2.0 ** math.floor(math.log2(base)), 2.0 ** (math.floor(math.log2(base)) + 1)
+            small = lo / 2.0 ** rng.randint(2, 6)              # on the grid of `base`, keeps the sum in the binade
+            if base + small >= hi or base - 3 * (hi - lo) * 2.0 ** -52 <= lo:
+                continue
+            gb = 2.0 ** rng.randint(-2, 2)
+            others = [gb * 2.0 ** -rng.randint(4, 8) for _ in range(rng.choice([0, 0, 1, 2]))]
+            g = [gb] + others
+            rng.shuffle(g)
+            seq = [base, math.nextafter(base, math.inf), math.nextafter(base, 0.0), base][:m]
+            if param == 'P':
+                calls = [(g, x, small * gb, 1.0) for x in seq]            # level of the best channel = small
+            else:
+                calls = [(g, small, x * gb, 1.0) for x in seq]            # level = x, power = small
+        else:                                                  # dec13
+            nn = rng.choice([1, 2, 2, 4, 4, 3])
+            g = [2.0 ** rng.randint(-2, 2) for _ in range(nn)]
+            Es = 2.0 ** rng.randint(-1, 1)
+            N0, P0 = rng.randint(1, 8) / 4.0, rng.randint(1, 32) / 4.0
+            js = [0] + [rng.randint(1, 7) for _ in range(m - 1)]
+            h = 2.0 ** -rng.randint(41, 44)
+            calls = [(g, P0 + (j * h if param == 'P' else 0.0), N0 + (j * h if param == 'N' else 0.0), Es) for j in js]
+        out.append(r15_history(kind, param, calls))
+    return out
+
+
+def r15_cases(hists):
+    """every call of every history as a plain case: correspondence with the exact model (fresh call) and
+    the standard first-principles oracles"""
+    cases = []
+    for h in hists:
+        for i in range(len(h['calls'])):
+            c = call_of(h, i)
+            c['branches'] = ['corr:R15:' + h['close']['kind']]
+            cases.append(c)
+    return cases
+
+
+def r15_oracles(ctx, hists):
+    for h in hists:
+        info = []
+        hc = {k: h[k] for k in ('calls', 'close')}
+        ctx.count(('doWF.close', json.dumps(hc, sort_keys=True)), True)
+        try:
+            r = o_close(hc, info)
+        except Exception as e:
+            r = ('exception:' + type(e).__name__, repr(e)[:300])
+        if r is not None:
+            ctx.fail('doWF.close', r[0], hc, r[1])
+            ctx.branch('oracle-fail:doWF.close')
+        else:
+            ctx.branch('oracle-ok:doWF.close')
+        ctx.branch('R15:' + h['close']['kind'])
+        ctx.branch('R15:' + h['close']['kind'] + ':' + h['close']['param'])
+        if 'exact' in info:
+            ctx.branch('R15:bit-exact-comparison')
+        if 'tight' in info:
+            ctx.branch('R15:1e-12-comparison')
+
+
+# ------------------------------------------------------------------ R16: argument identity and buffer reuse
+def play_reuse(case, records=None):
+    """R16: ONE preallocated gain buffer (ndarray / strided view / integer array / python list) refilled in
+    place before every call of a 2-4 call history - with new contents, a permutation of the old ones, one
+    changed element, earlier contents again, another length (one persistent shorter view of the same base) -
+    the scalar arguments as python floats, as 0-d arrays that are themselves preallocated and refilled, or
+    as ONE 0-d array handed over in two or three roles; the arguments are scribbled over right after the
+    call.  Nothing else is called between the calls of the history (a one-entry memo would be evicted).
+    Every call must return the exact water-filling solution of the contents at call time (1e-9) and, bit
+    for bit, what a call on fresh copies of the contents returns (made after the history); no earlier
+    result may change; no argument may be modified; no result may alias an argument or another result."""
+    steps = case['steps']
+    bk = case.get('buffer', 'ndarray')
+    sk = case.get('scalars', 'py')
+    nmax = max(len(s['g']) for s in steps)
+    dt = np.int64 if bk == 'int-array' else np.float64
+    if bk == 'view':
+        base = np.full(2 * nmax + 3, -3.0)
+        whole = base[1:2 * nmax + 1:2]
+    elif bk == 'list':
+        base = whole = [0.0] * nmax
+    else:
+        base = whole = np.full(nmax, 7, dtype=dt)
+    views = {nmax: whole}                                        # ONE array object per length, kept for the whole history
+    zs = {k: np.array(0.0) for k in ('P', 'N', 'Es')}           # preallocated 0-d arrays (sk = '0d-reused')
+    shared = np.array(0.0)                                       # ONE 0-d array for several roles
+    kept = []                                                    # (result objects, copy taken at once, step data)
+
+    def cls(check, st):
+        return 'R16:%s:%s%s' % (check, bk, ':one-object-in-several-roles' if st.get('roles') else
+                                ':0d-reused' if sk == '0d-reused' else '')
+
+    def unchanged(upto, st):
+        for j, (old, cp, cmu, _, _) in enumerate(kept):
+            if not np.array_equal(np.asarray(old[0]), cp) or float(np.asarray(old[1], dtype=float).reshape(-1)[0]) != cmu:
+                return cls('earlier-result-changed', st), 'the result of call %d changed after %s' % (j + 1, upto)
+        return None
+
+    for i, st in enumerate(steps):
+        vals = [float(x) for x in st['g']]
+        n = len(vals)
+        if bk == 'list':
+            whole[:] = vals                                      # the same list object, new contents (and length)
+            buf = whole
+        else:
+            if n not in views:
+                views[n] = whole[:n]
+            buf = views[n]                                       # the same array object as in every earlier step of this length
+            buf[...] = np.array(vals, dtype=dt)
+            if not np.array_equal(np.asarray(buf, dtype=float), np.array(vals)):
+                raise core.Infra('buffer of kind %s cannot hold %r' % (bk, vals))
+        r = unchanged('the refill before call %d' % (i + 1), st)
+        if r is not None:
+            return r
+        sc = {k: float(st[k]) for k in ('P', 'N', 'Es')}
+        args = dict(sc)
+        if sk == '0d-reused':
+            for k in args:
+                zs[k][...] = sc[k]
+                args[k] = zs[k]
+        roles = st.get('roles') or []
+        if roles == ['P=gain-view']:
+            if bk == 'list':
+                raise core.Infra('a list has no views')
+            j = int(st['view_of'])
+            if vals[j] != sc['P']:
+                raise core.Infra('P must equal gain %d for the view role' % j)
+            args['P'] = buf[j:j + 1].reshape(())                 # a 0-d VIEW into the gain buffer
+        elif roles:
+            if len({sc[k] for k in roles}) != 1:
+                raise core.Infra('roles %r need equal values' % (roles,))
+            shared[...] = sc[roles[0]]
+            for k in roles:
+                args[k] = shared                                 # the SAME object in every listed role
+        before = (list(buf) if bk == 'list' else snapshot(buf), [snapshot(args[k]) for k in ('P', 'N', 'Es')])
+        what = 'call %d on the refilled buffer %r (P=%r N=%r Es=%r)' % (i + 1, vals, sc['P'], sc['N'], sc['Es'])
+        try:
+            res = call_raw((buf, args['P'], args['N'], args['Es']))
+        except Exception as e:
+            return cls('raises', st), '%s raises %r' % (what, e)
+        after = (list(buf) if bk == 'list' else snapshot(buf), [snapshot(args[k]) for k in ('P', 'N', 'Es')])
+        if after != before:
+            return cls('argument-modified', st), '%s modified an argument' % what
+        p, mu = res
+        if isinstance(p, np.ndarray) and (
+                (bk != 'list' and np.shares_memory(p, base)) or any(np.shares_memory(p, z) for z in list(zs.values()) + [shared])):
+            return cls('result-aliases-argument', st), '%s returned an allocation that shares memory with an argument' % what
+        for j, (old, _, _, _, _) in enumerate(kept):
+            if isinstance(p, np.ndarray) and isinstance(old[0], np.ndarray) and np.shares_memory(p, old[0]):
+                return cls('results-share-memory', st), 'calls %d and %d returned overlapping buffers' % (j + 1, i + 1)
+        pa, ma = np.asarray(p, dtype=float), float(np.asarray(mu, dtype=float).reshape(-1)[0])
+        ep, emu, _, _ = exact_wf(vals, sc['P'], sc['N'], sc['Es'])
+        scale = max(Fraction(sc['P']), min(Fraction(sc['N']) / (Fraction(sc['Es']) * Fraction(x)) for x in vals), emu)
+        tol = Fraction(RTOL) * scale
+        if pa.shape != (n,) or not np.all(np.isfinite(pa)) or \
+                any(abs(Fraction(float(x)) - y) > tol for x, y in zip(pa, ep)) or abs(Fraction(ma) - emu) > tol:
+            return cls('not-the-solution-for-the-contents:refill=' + st.get('mode', 'new'), st), \
+                '%s returned p=%r mu=%r, the solution for the contents is p=%r mu=%r' % (
+                    what, pa.tolist(), ma, [float(y) for y in ep], float(emu))
+        if records is not None:
+            records.append(({'g': vals, 'P': sc['P'], 'N': sc['N'], 'Es': sc['Es']}, (pa.copy(), ma)))
+        kept.append(((p, mu), np.array(p, copy=True), ma, (vals, sc), st))
+        if st.get('scribble', True):                             # (iii) arguments modified right after the call
+            if bk == 'list':
+                whole[:] = [-7.0] * len(whole)
+            else:
+                whole[...] = 5
+            for z in list(zs.values()) + [shared]:
+                z[...] = -1.0
+            r = unchanged('the arguments of call %d were overwritten' % (i + 1), st)
+            if r is not None:
+                return r
+    # (iv) after the history: equal contents in fresh objects give bit for bit the same results
+    for j, (old, cp, cmu, (vals, sc), st) in enumerate(kept):
+        fresh_g = list(vals) if bk == 'list' else np.array(vals, dtype=dt)
+        fresh = call_raw((fresh_g, sc['P'], sc['N'], sc['Es']))
+        if cp.shape != np.asarray(fresh[0]).shape or not np.array_equal(cp, np.asarray(fresh[0], dtype=float)) \
+                or cmu != float(fresh[1]):
+            return cls('differs-from-fresh-objects', st), \
+                'call %d on the refilled buffer %r (P=%r N=%r Es=%r) returned p=%r mu=%r, a call on fresh copies of ' \
+                'the contents p=%r mu=%r' % (j + 1, vals, sc['P'], sc['N'], sc['Es'], cp.tolist(), cmu,
+                                             np.asarray(fresh[0]).tolist(), float(fresh[1]))
+        r = unchanged('the fresh call %d' % (j + 1), st)
+        if r is not None:
+            return r
+    return None
+
+
+def o_reuse(case):
+    return play_reuse(case)
+
+
+R16_MODES = ('new', 'perm', 'one', 'back', 'same', 'resize')
+
+
+def gen_r16(rng, count):
+    out = []
+    buffers = ['ndarray', 'view', 'list', 'int-array', 'ndarray']
+    for i in range(count):
+        bk = buffers[i % len(buffers)]
+        sk = ('py', '0d-reused', 'py')[(i // len(buffers)) % 3]
+        m = rng.randint(2, 4)
+        n = rng.randint(2, 7)
+        ints = bk == 'int-array'
+
+        def fresh_g(nn):
+            if ints:
+                return [float(rng.randint(1, 400)) for _ in range(nn)]
+            c = rng.uniform(-1, 1)
+            return [logu(rng, c - 1, c + 1) for _ in range(nn)]
+
+        g = fresh_g(n)
+        N, Es = rng.choice([1.0, 0.5, 2.0, logu(rng, -1, 1)]), rng.choice([1.0, 2.0, 0.5, logu(rng, -1, 1)])
+        hist = [g]
+        steps = []
+        for t in range(m):
+            mode = 'new' if t == 0 else R16_MODES[(i + t) % len(R16_MODES)] if rng.chance(0.7) else rng.choice(R16_MODES)
+            if t == 0:
+                pass
+            elif mode == 'new':
+                g = fresh_g(len(g))
+            elif mode == 'perm':
+                # same multiset (same sum, same extremes), first element kept when there is room: only the
+                # POSITIONS of the gains change
+                idx = list(range(len(g)))
+                for _ in range(8):
+                    tail = idx[1:] if len(g) >= 3 else idx[:]
+                    rng.shuffle(tail)
+                    cand = (idx[:1] + tail) if len(g) >= 3 else tail
+                    if [g[j] for j in cand] != g:
+                        break
+                g = [g[j] for j in cand]
+            elif mode == 'one':
+                g = list(g)
+                j = rng.below(len(g))
+                g[j] = float(rng.randint(1, 400)) if ints else g[j] * rng.choice([1.000001, 0.5, 3.0, 1e-3, 1.01])
+            elif mode == 'back':
+                g = list(hist[-2] if len(hist) >= 2 else hist[0])
+            elif mode == 'resize':
+                nn = rng.choice([x for x in (1, 2, 3, 5, 8) if x != len(g)])
+                g = (g + fresh_g(nn))[:nn] if rng.chance(0.5) else fresh_g(nn)
+            hist.append(g)
+            k = rng.randint(1, len(g))
+            if mode == 'same' or rng.chance(0.3):
+                N, Es = rng.choice([1.0, 0.5, 2.0, logu(rng, -1, 1)]), rng.choice([1.0, 2.0, 0.5, logu(rng, -1, 1)])
+            st = {'g': [float(x) for x in g], 'P': between(rng, g, N, Es, k), 'N': float(N), 'Es': float(Es),
+                  'mode': mode, 'scribble': rng.chance(0.7)}
+            # the same object in two / three roles
+            r = rng.below(6)
+            if sk == 'py' and r == 0:
+                st['N'] = st['Es'] = float(rng.choice([2.0, 0.5, logu(rng, -1, 1)]))
+                st['P'] = between(rng, g, st['N'], st['Es'], k)
+                st['roles'] = ['N', 'Es']
+            elif sk == 'py' and r == 1:
+                v = float(rng.choice([1.0, 2.0, 0.75, logu(rng, -1, 1)]))
+                st['P'] = st['N'] = st['Es'] = v
+                st['roles'] = ['P', 'N', 'Es']
+            elif sk == 'py' and r == 2:
+                st['P'] = st['N'] = float(rng.choice([0.5, 3.0, logu(rng, -1, 1)]))
+                st['roles'] = ['P', 'N']
+            elif sk == 'py' and r == 3 and bk != 'list':
+                j = rng.below(len(g))
+                st['P'], st['view_of'], st['roles'] = float(g[j]), j, ['P=gain-view']
+            steps.append(st)
+        out.append({'steps': steps, 'buffer': bk, 'scalars': sk})
+    return out
+
+
+R16_FIXED = [
+    # A, a permutation of A (same sum, same first and last element), A again: same P, N, Es throughout
+    {'buffer': 'ndarray', 'scalars': 'py', 'steps': [
+        {'g': [1.0, 0.5, 0.25, 0.1], 'P': 1.0, 'N': 0.5, 'Es': 2.0, 'mode': 'new', 'scribble': False},
+        {'g': [1.0, 0.25, 0.5, 0.1], 'P': 1.0, 'N': 0.5, 'Es': 2.0, 'mode': 'perm', 'scribble': False},
+        {'g': [1.0, 0.5, 0.25, 0.1], 'P': 1.0, 'N': 0.5, 'Es': 2.0, 'mode': 'back', 'scribble': False},
+        {'g': [0.1, 0.5, 0.25, 1.0], 'P': 1.0, 'N': 0.5, 'Es': 2.0, 'mode': 'perm', 'scribble': True}]},
+    {'buffer': 'ndarray', 'scalars': 'py', 'steps': [
+        {'g': [3.0, 2.0, 1.0], 'P': 1.0, 'N': 1.0, 'Es': 1.0, 'mode': 'new', 'scribble': False},
+        {'g': [3.0, 2.0, 1.000001], 'P': 1.0, 'N': 1.0, 'Es': 1.0, 'mode': 'one', 'scribble': False},
+        {'g': [0.5, 2.0, 1.000001], 'P': 1.0, 'N': 1.0, 'Es': 1.0, 'mode': 'one', 'scribble': True}]},
+    {'buffer': 'view', 'scalars': '0d-reused', 'steps': [
+        {'g': [4.0, 2.0, 1.0, 0.5, 0.25], 'P': 0.5, 'N': 1.0, 'Es': 1.0, 'mode': 'new', 'scribble': True},
+        {'g': [0.25, 0.5], 'P': 0.5, 'N': 1.0, 'Es': 1.0, 'mode': 'resize', 'scribble': True},
+        {'g': [4.0, 2.0, 1.0, 0.5, 0.25], 'P': 8.0, 'N': 0.25, 'Es': 1.0, 'mode': 'resize', 'scribble': True}]},
+    {'buffer': 'ndarray', 'scalars': 'py', 'steps': [
+        {'g': [2.0, 1.0, 0.5], 'P': 2.0, 'N': 2.0, 'Es': 2.0, 'mode': 'new', 'roles': ['P', 'N', 'Es'], 'scribble': True},
+        {'g': [2.0, 1.0, 0.5], 'P': 0.5, 'N': 3.0, 'Es': 3.0, 'mode': 'same', 'roles': ['N', 'Es'], 'scribble': True},
+        {'g': [2.0, 1.0, 0.5], 'P': 0.75, 'N': 0.75, 'Es': 1.0, 'mode': 'same', 'roles': ['P', 'N'], 'scribble': True},
+        {'g': [2.0, 0.75, 0.5], 'P': 0.75, 'N': 1.0, 'Es': 1.0, 'mode': 'one', 'roles': ['P=gain-view'], 'view_of': 1,
+         'scribble': True}]},
+    {'buffer': 'list', 'scalars': 'py', 'steps': [
+        {'g': [1.0, 2.0, 3.0], 'P': 0.25, 'N': 1.0, 'Es': 1.0, 'mode': 'new', 'scribble': True},
+        {'g': [3.0, 2.0, 1.0], 'P': 0.25, 'N': 1.0, 'Es': 1.0, 'mode': 'perm', 'scribble': True}]},
+    {'buffer': 'int-array', 'scalars': 'py', 'steps': [
+        {'g': [4.0, 2.0, 1.0], 'P': 1.0, 'N': 1.0, 'Es': 1.0, 'mode': 'new', 'scribble': False},
+        {'g': [4.0, 1.0, 2.0], 'P': 1.0, 'N': 1.0, 'Es': 1.0, 'mode': 'perm', 'scribble': False},
+        {'g': [7.0, 1.0, 2.0], 'P': 1.0, 'N': 1.0, 'Es': 1.0, 'mode': 'one', 'scribble': True}]},
+]
+
+
+def r16_streams(ctx, hists):
+    """oracle on every history; the results obtained INSIDE the history are compared with the model's
+    history function (`runOpsRat`, driver line `hist`) on the same fills and calls"""
+    lines, recs = [], []
+    for h in hists:
+        ctx.count(('doWF.reuse', json.dumps(h, sort_keys=True)), True)
+        records = []
+        try:
+            r = play_reuse(h, records)
+        except core.Infra:
+            raise
+        except Exception as e:
+            r = ('exception:' + type(e).__name__, repr(e)[:300])
+        if r is not None:
+            ctx.fail('doWF.reuse', r[0], h, r[1])
+            ctx.branch('oracle-fail:doWF.reuse')
+        else:
+            ctx.branch('oracle-ok:doWF.reuse')
+        ctx.branch('R16:buffer:' + h['buffer'])
+        ctx.branch('R16:scalars:' + h['scalars'])
+        for st in h['steps']:
+            ctx.branch('R16:refill:' + st['mode'])
+            if st.get('roles'):
+                ctx.branch('R16:same-object-in-two-roles')
+            if st.get('scribble', True):
+                ctx.branch('R16:argument-overwritten-after-the-call')
+        if records:
+            lines.append('hist ' + ' '.join('fill=%s call=%s;%s;%s' % (','.join(rs(x) for x in c['g']), rs(c['P']),
+                                                                    rs(c['N']), rs(c['Es'])) for c, _ in records))
+            recs.append(records)
+    try:
+        out = core.Driver(DRIVER).ask(lines)
+    except core.Infra as e:
+        if not ctx.broken:
+            raise
+        ctx.notes.append('R16 correspondence skipped: %s' % e)
+        ctx.required_branches = []
+        return
+    for records, rep in zip(recs, out):
+        parts = rep.split(' | ')
+        if len(parts) != len(records):
+            ctx.corr('doWF.history', [c for c, _ in records], '%d calls' % len(records), rep[:200])
+            continue
+        for t, ((c, got), part) in enumerate(zip(records, parts)):
+            compare_one(ctx, c, parse_reply(part), impl=got, tag='R16:call-%d-of-history' % (t + 1))
+            ctx.branch('corr:R16:call-on-refilled-buffer')
+
+
 # ------------------------------------------------------------------ check
 def grid_cases():
     """thorough tier: every gain vector over {1/2,1,2,3} of length 1..4 x a grid of P, N, Es"""
@@ -1315,7 +1935,9 @@ def check(ctx):
                 'sizes and values, R6 inputs scaled by 1e-12..1e12 (all through correspondence and the standard '
                 'oracles), plus the R1-R4/R6/R7 twin, immutability, rejected-call, rescaling and shared-array oracles; R8 call forms '
                 '(keyword / mixed / defaults), R10 mixed-type element collections, R13 derived/overwritten arrays, R14 '
-                '257..4097 channels against the model and 65537 channels against the oracles. '
+                '257..4097 channels against the model and 65537 channels against the oracles; R15 histories of '
+                'close-but-distinct arguments (17 fixed + 150 / 3000 random, 5 kinds x parameter) against the exact '
+                'rational solution; R16 histories on one refilled argument buffer (6 fixed + 120 / 2400 random). '
                 'non-trivial = distinct input with >= 2 channels')
     quick = ctx.tier == 'quick'
     n_rand, n_dyadic, nmax, n_big = (3000, 1000, 64, 0) if quick else (20000, 10000, 128, 600)
@@ -1343,6 +1965,18 @@ def check(ctx):
     ctx.required_branches += ['R8:' + f for f in CALL_FORMS if f != 'positional'] + [
         'R8:len1-scalars', 'R10:list', 'R10:tuple', 'R10:object-array', 'R13:derived',
         'R14:n=257', 'R14:n=258', 'R14:n=300', 'R14:n=4097', 'R14:n=65537(oracles only)']
+    # third robustness round: R15 distinct values that are merely close, R16 argument identity / buffer reuse
+    r15 = [json.loads(json.dumps(h)) for h in R15_FIXED] + gen_r15(ctx.rng, 150 if quick else 3000)
+    r16 = [json.loads(json.dumps(h)) for h in R16_FIXED] + gen_r16(ctx.rng, 120 if quick else 2400)
+    cases += r15_cases(r15)
+    ctx.required_branches += ['R15:' + k for k in ('tiny', 'rel', 'threshold', 'ulp', 'dec13')] + [
+        'corr:R15:' + k for k in ('tiny', 'rel', 'threshold', 'ulp', 'dec13')] + [
+        'R15:tiny:N', 'R15:tiny:g-within', 'R15:rel:g-within', 'R15:rel:P', 'R15:ulp:P', 'R15:dec13:P',
+        'R15:bit-exact-comparison', 'R15:1e-12-comparison'] + [
+        'R16:buffer:' + b for b in ('ndarray', 'view', 'list', 'int-array')] + [
+        'R16:scalars:py', 'R16:scalars:0d-reused'] + ['R16:refill:' + m for m in R16_MODES] + [
+        'R16:same-object-in-two-roles', 'R16:argument-overwritten-after-the-call',
+        'corr:R16:call-on-refilled-buffer']
     try:
         correspondence(ctx, cases)
         malformed(ctx)
@@ -1354,6 +1988,8 @@ def check(ctx):
     oracles(ctx, cases)
     robustness_oracles(ctx, r1, r2, 150 if quick else 1500)
     robustness2_oracles(ctx, r8, r10, r14_big, 90 if quick else 900)
+    r15_oracles(ctx, r15)
+    r16_streams(ctx, r16)
     if not quick:
         ctx.branch('grid-enumeration', len(grid_cases()))
 
@@ -1368,3 +2004,6 @@ def search(ctx):
         cases.append(c)
     cases += [gen_dyadic(ctx.rng, 6) for _ in range(1000)]
     oracles(ctx, cases)
+    r15_oracles(ctx, [json.loads(json.dumps(h)) for h in R15_FIXED] + gen_r15(ctx.rng, 600))
+    for h in [json.loads(json.dumps(h)) for h in R16_FIXED] + gen_r16(ctx.rng, 400):
+        run_oracle(ctx, 'doWF.reuse', h)
